@@ -27,9 +27,16 @@ pub enum Op {
   HHour { from: usize, to: usize, k: usize },
   /// compare the values in two slots (is_before / is_after / ==)
   HCmp { a: usize, b: usize },
+  /// a clone of the value in my slot goes into exchange slot g of the run (shared by all threads)
+  HPut { slot: usize, g: usize },
+  /// the value in exchange slot g (made, stepped and asked on whichever thread put it there)
+  /// moves into my slot: a value that crosses threads
+  HTake { slot: usize, g: usize },
 }
 
 pub const SLOTS: usize = 4;
+/// exchange slots per run
+pub const GSLOTS: usize = 4;
 
 #[derive(Clone, Debug)]
 pub struct RunScript {
@@ -57,6 +64,8 @@ impl Op {
         s
       }
       Op::HNext { slot, n } => format!("hnext {} {}", slot, n),
+      Op::HPut { slot, g } => format!("hput {} {}", slot, g),
+      Op::HTake { slot, g } => format!("htake {} {}", slot, g),
       Op::HClone { from, to } => format!("hclone {} {}", from, to),
       Op::HGet { slot, g } => format!("hget {} {}", slot, g),
       Op::HDay { from, to, variant } => format!("{} {} {}", ["hday", "hday2", "hday3"][(*variant).min(2)], from, to),
@@ -101,6 +110,8 @@ impl Op {
       Some("hday") | Some("hday2") | Some("hday3") if tokens.len() == 3 => Ok(Op::HDay { from: (num(tokens[1])? as usize).min(SLOTS - 1), to: (num(tokens[2])? as usize).min(SLOTS - 1), variant: ["hday", "hday2", "hday3"].iter().position(|x| *x == tokens[0]).unwrap_or(0) }),
       Some("hhour") if tokens.len() == 4 => Ok(Op::HHour { from: (num(tokens[1])? as usize).min(SLOTS - 1), to: (num(tokens[2])? as usize).min(SLOTS - 1), k: (num(tokens[3])? as usize).min(12) }),
       Some("hcmp") if tokens.len() == 3 => Ok(Op::HCmp { a: (num(tokens[1])? as usize).min(SLOTS - 1), b: (num(tokens[2])? as usize).min(SLOTS - 1) }),
+      Some("hput") if tokens.len() == 3 => Ok(Op::HPut { slot: (num(tokens[1])? as usize).min(SLOTS - 1), g: (num(tokens[2])? as usize).min(GSLOTS - 1) }),
+      Some("htake") if tokens.len() == 3 => Ok(Op::HTake { slot: (num(tokens[1])? as usize).min(SLOTS - 1), g: (num(tokens[2])? as usize).min(GSLOTS - 1) }),
       Some("hget") if tokens.len() == 3 => Ok(Op::HGet { slot: (num(tokens[1])? as usize).min(SLOTS - 1), g: num(tokens[2])? }),
       _ => Err(format!("unknown op: {:?}", tokens)),
     }
